@@ -206,6 +206,13 @@ pub fn srp_honest<const N: usize>(
     let builder = SignatureRequestProofBuilder::<N>::generate_proof_commitments(&mut rng, wire::msg::<N>(ms), opts, pk);
     let bf = builder.message_blinding_factor().as_scalar();
     let ts = builder.conjunction_commitment_scalars().to_vec();
+    for (i, (o, t)) in opts.iter().zip(ts.iter()).enumerate() {
+        if let Some(s) = o {
+            if s != t {
+                ctx.violation(&format!("caller-chosen commitment scalar (slot {}, value {}) not used by the signature-request builder", i, hex_s(s)), json!({"class": "commitment-scalar-ignored", "kind": "signature-request-proof", "N": N, "slot": i}));
+            }
+        }
+    }
     let (challenge, c) = match mode {
         ChalMode::Derived => {
             let ch = ChallengeBuilder::new().with(&builder).finish();
@@ -304,6 +311,13 @@ pub fn sp_honest<const N: usize>(
     }
     let builder = SignatureProofBuilder::<N>::generate_proof_commitments(&mut rng, wire::msg::<N>(ms), *sig, opts, pk);
     let ts = builder.conjunction_commitment_scalars().to_vec();
+    for (i, (o, t)) in opts.iter().zip(ts.iter()).enumerate() {
+        if let Some(s) = o {
+            if s != t {
+                ctx.violation(&format!("caller-chosen commitment scalar (slot {}, value {}) not used by the signature-proof builder", i, crate::dl::hex_s(s)), json!({"class": "commitment-scalar-ignored", "kind": "signature-proof", "N": N, "slot": i}));
+            }
+        }
+    }
     let drawn = rng.scalars_in_log();
     let (challenge, c) = match mode {
         ChalMode::Derived => {
